@@ -112,6 +112,29 @@ func c17Disruption(c *Check) {
 				}
 				c.Result(ok, "C17.P3", "hup(campaignTransfer)", fnName(cs.Caller), site, "forced election only on MsgTimeoutNow from the leader", "")
 			default:
+				// a campaign type chosen before the call: decide per incoming value
+				if arg.K == KPhi {
+					okAll := true
+					var parts []string
+					edges := phiEdges(fi, arg.V, cs.Instr)
+					for _, pe := range edges {
+						es := fi.Sym(pe.val)
+						k := ""
+						if es.K == KConst && es.C != nil {
+							k = strings.Trim(es.C.ExactString(), `"`)
+						}
+						parts = append(parts, k)
+						switch k {
+						case "CampaignPreElection":
+						case "CampaignElection":
+							okAll = okAll && pe.facts.HasBool(func(sy *Sym) bool { return sy.K == KField && sy.Fld == preVoteF }, false) != nil
+						default:
+							okAll = false
+						}
+					}
+					c.Result(okAll && len(edges) > 0, "C17.P3", "hup(campaign type chosen per branch)", fnName(cs.Caller), site, "campaignElection only where PreVote is disabled; otherwise campaignPreElection", strings.Join(parts, " | "))
+					continue
+				}
 				c.Bad("C17.P3", "hup argument", fnName(cs.Caller), site, "a constant campaign type", arg.Key())
 			}
 		}
